@@ -83,6 +83,11 @@ def run_trace(rng, spec, nops, kinds=None, oracles=("xref", "sync", "ctx"), extr
         modelled = op["op"] in coreops.MODELLED
         if op["op"] in ("add_mets", "sub_mets") and op["keys"] != "str" and any(m not in ex.model.metabolites for m, _ in op["mets"]):
             modelled = False    # creates a metabolite that is new to the model: outside the modelled fragment so far
+        line_op = op
+        if op["op"] == "rm_rxns" and len(op["rs"]) == 1 and not op.get("junk") and not op["orphans"] and op["rs"][0] in ex.model.reactions:
+            # remove_reactions([r], remove_orphans=False) of a reaction of the model: Core.removeRxn
+            modelled = True
+            line_op = {"op": "rm_rxn", "r": op["rs"][0]}
         err = ex.apply(op)
         probs = []
         try:
@@ -110,7 +115,7 @@ def run_trace(rng, spec, nops, kinds=None, oracles=("xref", "sync", "ctx"), extr
         if state is None:
             break
         if modelled and not (op["op"] == "set_rule"):
-            t.lines.append(json.dumps(op))
+            t.lines.append(json.dumps(line_op))
             t.expect.append({"err": err, "state": state})
         else:
             for s in snaps:
